@@ -552,7 +552,7 @@ class Check:
         distinct = len(res.hashes) + int(res.counters.get('distinct_by_construction', 0))
         cov = dict(evaluations=int(res.evaluations), distinct_nontrivial=int(distinct), rule=rule,
                    samples=res.samples[:8], counters=res.counters,
-                   coverage_sets={k: sorted(v)[:60] for k, v in res.sets.items()},
+                   coverage_sets={k: sorted(v)[:400] for k, v in res.sets.items()},
                    coverage_set_sizes={k: len(v) for k, v in res.sets.items()},
                    parts=self.parts, info=res.info, crashes=res.crashes,
                    inconclusive=len(res.inconclusive), inconclusive_cases=res.inconclusive[:10],
